@@ -35,8 +35,9 @@ VARIABLES tid, l, bad,
           known,    \* frame ids seen so far
           est,      \* frame id -> [zero, m, s]: the estimate the last event on that frame left
           dig,      \* frame id -> digest of the pixels the last event on that frame left ("?" = not tracked)
-          file      \* path key -> [gen, sig]: number of saves so far and what the last one wrote
-vars == <<tid, l, bad, known, est, dig, file>>
+          file,     \* path key -> [gen, sig]: number of saves so far and what the last one wrote
+          mrate     \* frame id -> the drift rate in that frame's own bookkeeping dictionary ("none", a float's repr, "?" = not tracked)
+vars == <<tid, l, bad, known, est, dig, file, mrate>>
 
 Evs == Traces[tid].ev
 E   == Evs[l]
@@ -48,6 +49,7 @@ Init == /\ tid \in 1..Len(Traces) /\ l = 1 /\ bad = {} /\ known = {}
         /\ est = [f \in 1..Traces[tid].h.nf |-> Unknown]
         /\ dig = [f \in 1..Traces[tid].h.nf |-> "?"]
         /\ file = [p \in 1..Traces[tid].h.np |-> [gen |-> 0, sig |-> NoSig]]
+        /\ mrate = [f \in 1..Traces[tid].h.nf |-> "?"]
         /\ TLCSet(tid, <<1, {}>>)
 
 Cont(f, before) == f \notin known \/ est[f] = before      \* a frame first seen mid-life (copy, unpickled, loaded) is adopted
@@ -66,7 +68,7 @@ Saved    == file[E.path].sig
 FromSave == E.how \in {"file", "pickle"} /\ Saved.fmt # "?" /\ ((E.how = "pickle") <=> (Saved.fmt = "pickle"))
 Create ==
     /\ l <= Len(Evs) /\ bad = {} /\ E.e = "Create"
-    /\ UNCHANGED file
+    /\ UNCHANGED file /\ mrate' = [mrate EXCEPT ![E.fid] = E.rate]
     /\ Step([C11_fresh_frame_has_no_estimate |-> (E.how = "sizes") => (E.after.zero /\ E.data_zero),
              C11_degrees_of_freedom          |-> E.k_ok,
              C05_axes_match_shape            |-> E.axes_ok,
@@ -80,8 +82,15 @@ Create ==
              C03_helpers_report_file_axes    |-> (E.how = "file") => E.helpers_ok,
              C12_unpickled_equals_original   |-> (FromSave /\ E.how = "pickle") => E.exact_ok], E.fid, E.after)
 
+\* add_metadata / update_metadata: the only recorded calls that change a frame's bookkeeping dictionary
+Meta ==
+    /\ l <= Len(Evs) /\ bad = {} /\ E.e = "Meta"
+    /\ bad' = {} /\ l' = l + 1 /\ mrate' = [mrate EXCEPT ![E.fid] = E.rate]
+    /\ UNCHANGED <<tid, known, est, dig, file>>
+
 Save ==
     /\ l <= Len(Evs) /\ bad = {} /\ E.e = "Save"
+    /\ UNCHANGED mrate
     /\ Step([cont_estimate            |-> Cont(E.fid, E.before),
              C12_data_changed_only_by_own_calls |-> ContD(E.fid, E.dig0),
              cont_file                |-> E.gen = file[E.path].gen + 1,
@@ -90,7 +99,7 @@ Save ==
 
 Copy ==
     /\ l <= Len(Evs) /\ bad = {} /\ E.e = "Copy"
-    /\ UNCHANGED file
+    /\ UNCHANGED file /\ mrate' = IF E.child # 0 THEN [mrate EXCEPT ![E.child] = E.child_rate] ELSE mrate
     /\ LET r == [cont_estimate |-> Cont(E.parent, E.before),
                  C12_data_changed_only_by_own_calls |-> ContD(E.parent, E.dig0),
                  C12_copy_leaves_original  |-> E.parent_same,
@@ -104,7 +113,7 @@ Copy ==
 
 Noise ==
     /\ l <= Len(Evs) /\ bad = {} /\ E.e = "Noise"
-    /\ UNCHANGED file
+    /\ UNCHANGED <<file, mrate>>
     /\ Step([cont_estimate                   |-> Cont(E.fid, E.before),
              C12_data_changed_only_by_own_calls |-> ContD(E.fid, E.dig0),
              C11_returned_is_delta           |-> E.st # "ok" \/ E.delta_ok,
@@ -116,12 +125,12 @@ Noise ==
 
 ZeroData ==
     /\ l <= Len(Evs) /\ bad = {} /\ E.e = "ZeroData"
-    /\ UNCHANGED file
+    /\ UNCHANGED <<file, mrate>>
     /\ Step([C11_zero_data_resets |-> E.st # "ok" \/ (E.after.zero /\ E.data_zero /\ E.shape_ok)], E.fid, E.after)
 
 Signal ==
     /\ l <= Len(Evs) /\ bad = {} /\ E.e = "Signal"
-    /\ UNCHANGED file
+    /\ UNCHANGED <<file, mrate>>
     /\ Step([cont_estimate                     |-> Cont(E.fid, E.before),
              C12_data_changed_only_by_own_calls |-> ContD(E.fid, E.dig0),
              C11_signal_leaves_estimate        |-> E.after = E.before,
@@ -133,7 +142,7 @@ Signal ==
 
 Snr ==
     /\ l <= Len(Evs) /\ bad = {} /\ E.e = "Snr"
-    /\ UNCHANGED file
+    /\ UNCHANGED <<file, mrate>>
     /\ Step([cont_estimate                |-> Cont(E.fid, E.before),
              C12_data_changed_only_by_own_calls |-> ContD(E.fid, E.dig0),
              C11_query_leaves_estimate    |-> E.after = E.before,
@@ -142,8 +151,12 @@ Snr ==
 
 Derive ==
     /\ l <= Len(Evs) /\ bad = {} /\ E.e = "Derive"
-    /\ UNCHANGED file
+    /\ UNCHANGED file /\ mrate' = IF E.child # 0 THEN [mrate EXCEPT ![E.child] = E.child_rate] ELSE mrate
     /\ LET r == [C17_parent_untouched |-> E.parent_same,
+                 \* de-drifting "from metadata" uses the rate the frame's OWN dictionary holds: the one its own last
+                 \* add_metadata / construction left, not one written through another (derived or parent) frame
+                 C17_rate_from_own_metadata |-> (Traces[tid].h.strict /\ E.from_meta /\ E.parent \in known /\ mrate[E.parent] # "?")
+                                                    => E.rate_seen = mrate[E.parent],
                  C12_data_changed_only_by_own_calls |-> ContD(E.parent, E.dig0),
                  C17_keeps_orientation |-> E.keeps.asc, C17_keeps_resolution |-> E.keeps.df /\ E.keeps.dt,
                  C17_keeps_start_time |-> E.keeps.t_start, C17_keeps_source_name |-> E.keeps.source,
@@ -154,7 +167,7 @@ Derive ==
                   ELSE /\ known' = known \cup {E.child} /\ est' = [est EXCEPT ![E.child] = E.child_est]
                        /\ dig' = [dig EXCEPT ![E.child] = E.child_dig]
 
-Next == Create \/ Noise \/ ZeroData \/ Signal \/ Snr \/ Derive \/ Save \/ Copy
+Next == Create \/ Noise \/ ZeroData \/ Signal \/ Snr \/ Derive \/ Save \/ Copy \/ Meta
 Spec == Init /\ [][Next]_vars
 
 Progress == TLCSet(tid, IF bad # {} THEN <<l, bad>> ELSE IF TLCGet(tid)[1] < l THEN <<l, {}>> ELSE TLCGet(tid))
